@@ -92,6 +92,7 @@ theorem scalar_P (c : EncCfg) (hc : ColorCfg c) (kr : Bool) (fuel : Nat) (pfx : 
     cases fuel <;> (simp only [encVal]; simp only [atomsOK] at hok
                     exact hP.plain (bracket_noC0 _ (by intro x hx; simp only [List.mem_map] at hx; obtain ⟨y, hy, rfl⟩ := hx; exact timeText_noC0 c _ (all_noC0 hok y hy))))
   | fallback t => cases fuel <;> (simp only [encVal]; exact hP.plain (hq t))
+  | textm t fb => cases fuel <;> (simp only [encVal]; split <;> exact hP.plain (hq _))
   | group items => exact absurd rfl (hng items)
 
 def AttrsStmtC (P : Bytes → Prop) (c : EncCfg) (fuel : Nat) : Prop :=
